@@ -230,6 +230,9 @@ func parseDirectives(doc *ast.CommentGroup, tier string) *Config {
 			cfg.Outside = append(cfg.Outside, rest)
 		case "nonative":
 			cfg.NoNative = true
+		case "numtokens":
+			cfg.NumTokens = true
+			cfg.Stubs = append(cfg.Stubs, "decimal formatting/parsing of symbolic integers (fmt %d / strconv.ParseUint) -> inverse pair on an opaque number token (the digit codec is trusted)")
 		case "lazyfp":
 			cfg.LazyFP = true
 			cfg.Bounds["float branches"] = "not pruned during exploration (both sides explored); every verdict query carries the full path condition"
